@@ -1209,6 +1209,28 @@ func oracles11(r *Run, rng *Rng, t *dir11, st *oracleStats) {
 		if len(exp) > 0 {
 			r.Count("oracle_nesting", "checked")
 		}
+		// ---- the FIFO order law (C11_fifo_order): without sortOptions or with order: fifo the file resources
+		// come out in depth-first load order (generated resources, which carry no marker, are appended per layer)
+		if t.Sort == nil || t.Sort.Order == "fifo" {
+			want := []string{}
+			for _, dc := range t.allDocs(nil) {
+				if dc.Marker != "" {
+					want = append(want, dc.Marker)
+				}
+			}
+			got := []string{}
+			for _, res := range base.Res {
+				if _, ok := exp[res.Marker]; ok && res.Marker != "" {
+					got = append(got, res.Marker)
+				}
+			}
+			if len(want) > 0 {
+				r.Count("oracle_fifo", "checked")
+				if !eqStrs(want, got) {
+					report("fifo_order", "C11/fifo_order", fmt.Sprintf("output order %v is not the depth-first load order %v", got, want), t)
+				}
+			}
+		}
 	}
 }
 
